@@ -282,8 +282,12 @@ func (e *Env) eval(x Expr) Term {
 
 func (e *Env) quant(x EQuant) Term {
 	fv := e.fv
-	lo := e.coerce(e.eval(x.Lo), SInt)
-	hi := e.coerce(e.eval(x.Hi), SInt)
+	lo0, hi0 := e.eval(x.Lo), e.eval(x.Hi)
+	if fv.Mode == ModeBV && (lo0.Sort.Kind == KMath || hi0.Sort.Kind == KMath) {
+		return e.quantMath(x, lo0, hi0)
+	}
+	lo := e.coerce(lo0, SInt)
+	hi := e.coerce(hi0, SInt)
 	fv.nfresh++
 	bv := fmt.Sprintf("%s_q%d", x.Var, fv.nfresh)
 	saved, had := e.names[x.Var]
@@ -315,6 +319,42 @@ func (e *Env) quant(x EQuant) Term {
 		return Term{S: fmt.Sprintf("(forall ((%s %s)) (=> %s %s))", bv, idxSort(fv.Mode), rng, body.S), Sort: SBool}
 	}
 	return Term{S: fmt.Sprintf("(exists ((%s %s)) (and %s %s))", bv, idxSort(fv.Mode), rng, body.S), Sort: SBool}
+}
+
+// quantMath: a quantifier whose range is over ghost (mathematical) integers --
+// call-log indices -- inside a bit-vector contract: the bound variable is an Int.
+func (e *Env) quantMath(x EQuant, lo0, hi0 Term) Term {
+	fv := e.fv
+	lo := e.coerce(lo0, SMath)
+	hi := e.coerce(hi0, SMath)
+	fv.nfresh++
+	bv := fmt.Sprintf("%s_q%d", x.Var, fv.nfresh)
+	saved, had := e.names[x.Var]
+	e.names[x.Var] = Val{T: Term{S: bv, Sort: SMath}}
+	svTop := e.top
+	e.top = false
+	body := e.eval(x.Body)
+	e.top = svTop
+	if had {
+		e.names[x.Var] = saved
+	} else {
+		delete(e.names, x.Var)
+	}
+	if body.Sort.Kind != KBool {
+		e.fail("quantifier body is not boolean")
+	}
+	rng := smtAnd(app("<=", lo.S, bv), app("<", bv, hi.S))
+	if x.Forall {
+		if pats := selectPatterns(body.S, bv); len(pats) > 0 {
+			var ps string
+			for _, p := range pats {
+				ps += " :pattern (" + p + ")"
+			}
+			return Term{S: fmt.Sprintf("(forall ((%s Int)) (! (=> %s %s)%s))", bv, rng, body.S, ps), Sort: SBool}
+		}
+		return Term{S: fmt.Sprintf("(forall ((%s Int)) (=> %s %s))", bv, rng, body.S), Sort: SBool}
+	}
+	return Term{S: fmt.Sprintf("(exists ((%s Int)) (and %s %s))", bv, rng, body.S), Sort: SBool}
 }
 
 func (e *Env) ident(name string) Term {
